@@ -32,7 +32,12 @@ def gen_scripts(pid, tier, seed):
                 w = dict(ins=45, gethold=12, getdrop=14, touch=5, drop=12, clone=1, remove=5, clear=1, resize=3,
                          evict_all=1, flush=0, contains=1)
                 scripts.append(M.script_text(cfg, M.gen_ops(rng, cfg, rng.choice([8, 20, 40, 80]), w)))
-        rule.append(f"{per} random scripts per algorithm (single shard, length 8..80, several ratio/threshold configs)")
+            for _ in range(per // 6):
+                cfg = M.gen_cfg(rng, algo=algo, single=True, mode="concrete", hasher="id")
+                cfg["cap"] = rng.choice([3, 4, 6, 8]); cfg["univ"] = rng.choice([8, 12, 16])
+                scripts.append(M.script_text(cfg, M.gen_hot_ops(rng, cfg, rng.choice([40, 80, 150]))))
+        rule.append(f"{per} random scripts per algorithm (single shard, length 8..80, several ratio/threshold configs) + "
+                    f"{per // 6} skewed traces per algorithm (hot keys looked up 1..8 times in a row between streams of cold keys)")
     else:
         per = 6000 if thorough else 280
         for algo in M.ALGOS:
